@@ -125,14 +125,10 @@ Definition obs_fail (lk : lookup) (o : sq_obs) : list N :=
       flag 4 (p_returns o) ++ flag 5 (p_cli o)
   end.
 
-(* known class 1: the squashed tree nests sections deeper than 255: the projector's
-   `header_level as u8 + 1` overflows when the CLI path exports it.  The class is reported
-   only when nothing else fails in the case, so that it cannot hide a different violation. *)
-Definition in_class1 (lk : lookup) (o : sq_obs) : bool :=
-  match lk (so_key o) with
-  | Some R => heading_overflow (expand lk (so_depth o) R)
-  | None => false
-  end.
+(* No known-finding class is left: the former class 1 (a squashed tree nesting sections deeper
+   than 255 made the projector's `header_level as u8 + 1` overflow in the CLI path, F-C17-1) is
+   repaired - the level is a usize - so a CLI failure on such a tree is a violation like any
+   other. *)
 
 Definition nodupN (l : list N) : list N := nodup N.eq_dec l.
 
@@ -156,13 +152,7 @@ Definition run_C17 (c : case) : verdict :=
   let lk := lk_obs (c_lib c) in
   let fails := map (fun o => (o, obs_fail lk o)) (c_obs c) in
   let prop := nodupN (flat_map snd fails) in
-  let only_class1 :=
-    forallb (fun of => match snd of with
-                       | [] => true
-                       | [5%N] => in_class1 lk (fst of)
-                       | _ => false
-                       end) fails in
-  let cls := match prop with [] => [] | _ => if only_class1 then [1%N] else [] end in
+  let cls : list N := [] in
   let nontriv :=
     existsb (fun o => match lk (so_key o) with
                       | Some R => Nat.ltb 0 (so_depth o) && negb (match targets lk R with [] => true | _ => false end)
